@@ -1,5 +1,6 @@
 import GeoVerif.Model.MCRows
 import GeoVerif.Lemmas.C14
+import GeoVerif.Lemmas.MCRows
 import Mathlib.Data.List.Perm.Basic
 import Mathlib.Tactic.Linarith
 import Mathlib.Tactic.Positivity
@@ -212,5 +213,46 @@ theorem stats_order_independent (l₁ l₂ : List Rat) (h : l₁.Perm l₂) : st
 
 /-- kernel-evaluated example (numpy's conventions: median of an even count = mean of the two middle values; population variance) -/
 theorem stats_example : stats [3, 1, 4, 2] = ⟨1, 4, 5 / 2, 5 / 2, 5 / 4⟩ := by decide +kernel
+
+/-! ## the row as text: what the statistics step reads back is what the worker wrote, in header order -/
+
+/-- **header order survives the round trip**: what `main` reads back from a row, cell by cell, is exactly the list of values `work_package`
+put into it — for any number of values and any sampled-input text — provided each value is a blank-trimmed token without comma or parenthesis -/
+theorem parse_format_row (vals : List (List Char)) (tail : List Char) (hne : vals ≠ []) (ht : ∀ v ∈ vals, Token v)
+    (hp : ∀ v ∈ vals, NoParen v) : parseRowCells (formatRow vals tail) = vals := by
+  unfold parseRowCells formatRow
+  rw [rowHead_eq vals hne]
+  have hj := joined_noOpen vals hp
+  have hb : beforeParen ((joined vals ++ [',', ' ']) ++ '(' :: (tail ++ [')'])) = joined vals := by
+    have := beforeParen_append (joined vals) (tail ++ [')']) (fun c hc => (hj c hc).1)
+    simpa using this
+  rw [hb]
+  have hf : (joined vals).filter (fun c => c != '(' && c != ')') = joined vals := by
+    apply List.filter_eq_self.mpr
+    intro c hc
+    have := hj c hc
+    simp [this.1, this.2]
+  rw [hf]
+  exact split_joined vals hne ht
+
+
+/-- together with `row_aligned`: when every requested output is found exactly once, the cells `main` reads from the row text are the
+header's cells, one per column, in order -/
+theorem row_text_aligned (outs report : List Line) (tail : List Char) (hne : outs ≠ [])
+    (h : ∀ o ∈ outs, (getOutput o report).isSome)
+    (ht : ∀ v ∈ rowValues outs report, Token v) (hp : ∀ v ∈ rowValues outs report, NoParen v) :
+    (parseRowCells (formatRow (rowValues outs report) tail)).map some = rowCells outs report := by
+  have hlen := row_aligned_length outs report h
+  have hne' : rowValues outs report ≠ [] := by
+    intro hnil
+    rw [hnil] at hlen
+    exact hne (List.length_eq_zero_iff.mp hlen.symm)
+  rw [parse_format_row _ tail hne' ht hp]
+  exact row_aligned outs report h
+
+/-- kernel-evaluated instance on a real row -/
+theorem parse_row_example :
+    parseRowCells "3.62e+14, 215.74, (Formation Porosity:14.099034815472761;Reservoir Area:71.8093735367408;)".toList
+      = ["3.62e+14".toList, "215.74".toList] := by decide +kernel
 
 end GeoVerif.C14
